@@ -231,8 +231,21 @@ ShellCommand::processDependencyInfoDiscoveredDependencies(BuildSystem& system,
       system.getDelegate().commandFoundDiscoveredDependency(command, path, DiscoveredDependencyKind::Output);
     }
     virtual void actOnInput(StringRef path) override {
-      ti.discoveredDependency(BuildKey::makeNode(path).toData());
-      system.getDelegate().commandFoundDiscoveredDependency(command, path, DiscoveredDependencyKind::Input);
+      if (llvm::sys::path::is_absolute(path)) {
+        ti.discoveredDependency(BuildKey::makeNode(path).toData());
+        system.getDelegate().commandFoundDiscoveredDependency(command, path, DiscoveredDependencyKind::Input);
+        return;
+      }
+
+      // Generate absolute path, as for Makefile-style dependencies: a relative
+      // path is in relation to the command's working directory (or the current
+      // working directory when it has not been set).
+      SmallString<PATH_MAX> absPath = StringRef(command->workingDirectory);
+      llvm::sys::path::append(absPath, path);
+      llvm::sys::fs::make_absolute(absPath);
+
+      ti.discoveredDependency(BuildKey::makeNode(absPath).toData());
+      system.getDelegate().commandFoundDiscoveredDependency(command, absPath, DiscoveredDependencyKind::Input);
     }
   };
 
